@@ -597,9 +597,13 @@ def make_wsgi_app(
     # OAuth PKCE browser flow — only when authenticate + OAuth metadata + client_id
     _pkce_active = False
     _pkce_user_info_html: str | None = None
+    # Exact paths vs. subtree prefixes are kept apart: the health endpoint is
+    # one path, and matching it as a prefix would also exempt RPC methods whose
+    # name merely starts with "health" (``healthcheck``, ``health/init``).
+    _exempt_paths_list: list[str] = []
     _exempt_prefixes_list: list[str] = []
     if enable_health_endpoint:
-        _exempt_prefixes_list.append(f"{prefix}/health")
+        _exempt_paths_list.append(f"{prefix}/health")
     if (
         authenticate is not None
         and _validated_oauth_metadata is not None
@@ -663,6 +667,7 @@ def make_wsgi_app(
             www_authenticate=www_authenticate,
             on_auth_failure=on_auth_failure,
             exempt_prefixes=tuple(_exempt_prefixes_list),
+            exempt_paths=tuple(_exempt_paths_list),
         )
     )
     # Sticky middleware runs AFTER auth so AAD binding sees the authenticated
